@@ -490,6 +490,7 @@ def _gen_body_call(rng, op: Op, force: Optional[str] = None) -> dict:
 
 
 VP_MODES = ["default", "reference", "onnxruntime"]
+VP_WEIGHTS = [("default", 45), ("reference", 40), ("onnxruntime", 15)]  # onnxruntime cases run in a forked child
 
 
 def constify(rng, call) -> bool:
@@ -524,7 +525,7 @@ def constify(rng, call) -> bool:
             pass
         var["ty"] = {"t": t["t"], "s": conc}
         var["const"] = {"dtype": t["t"], "shape": conc, "data": data}
-    call["vp"] = rng.choice(VP_MODES)
+    call["vp"] = _pick(rng, VP_WEIGHTS)
     call["family"] = "constfed" if ok else call["family"]
     return ok
 
@@ -1184,6 +1185,45 @@ def _model_json(m: onnx.ModelProto) -> dict:
     }
 
 
+def isolated(fn):
+    """Run fn() in a forked child and return its (pickled) result; None if the child died (a native
+    abort inside onnxruntime must not take the check down). The parent never runs onnxruntime itself."""
+    import os
+    import pickle
+
+    r, w = os.pipe()
+    pid = os.fork()
+    if pid == 0:
+        code = 0
+        try:
+            os.close(r)
+            try:
+                data = pickle.dumps(("ok", fn()))
+            except BaseException as e:  # noqa: BLE001
+                data = pickle.dumps(("exc", f"{type(e).__name__}: {e}"[:300]))
+            with os.fdopen(w, "wb") as f:
+                f.write(data)
+        except BaseException:  # noqa: BLE001
+            code = 3
+        finally:
+            os._exit(code)
+    os.close(w)
+    chunks = []
+    with os.fdopen(r, "rb") as f:
+        while True:
+            b = f.read(1 << 20)
+            if not b:
+                break
+            chunks.append(b)
+    _, status = os.waitpid(pid, 0)
+    if status != 0 or not chunks:
+        return None
+    try:
+        return pickle.loads(b"".join(chunks))
+    except Exception:  # noqa: BLE001
+        return None
+
+
 @contextlib.contextmanager
 def _quiet_fd2():
     """onnxruntime (severity set by spox itself) writes every failed propagation run to fd 2"""
@@ -1764,7 +1804,7 @@ def gen_flow(rng, module: str) -> Optional[dict]:
     if kind != "result" and rng.random() < 0.45:
         # value propagation as users have it (results of earlier calls are not operands here, so the
         # oracle needs no values of its own)
-        vp = rng.choice(VP_MODES)
+        vp = _pick(rng, VP_WEIGHTS)
         for c in calls:
             c["vp"] = vp
     return {"vars": vars_, "calls": calls, "shared": shared, "kind": kind}
